@@ -4,14 +4,15 @@
    that message, and rejects everything that routes nowhere.  Stage B: every point is printed as a case. *)
 EXTENDS NasDispatch, Json, TLC
 CONSTANTS B1, T
-VARIABLES entry, b1, t, at
-vars == <<entry, b1, t, at>>
-Init == entry \in {"plain", "gmm", "gsm"} /\ b1 \in B1 /\ t \in T /\ at \in {3, 4}
+Fills == {<<0, 0>>, <<5, 7>>, <<254, 1>>}      \* values of the header octets that routing must ignore
+VARIABLES entry, b1, t, at, fill
+vars == <<entry, b1, t, at, fill>>
+Init == entry \in {"plain", "gmm", "gsm"} /\ b1 \in B1 /\ t \in T /\ at \in {3, 4} /\ fill \in Fills
 Next == UNCHANGED vars
 Spec == Init /\ [][Next]_vars
-Probe == <<b1, 0, (IF at = 3 THEN t ELSE 0), (IF at = 4 THEN t ELSE 0)>>
+Probe == <<b1, fill[1], (IF at = 3 THEN t ELSE fill[2]), (IF at = 4 THEN t ELSE fill[2])>>
 C == Route(entry, Probe)
-Inp == IF C = {} THEN Probe \o <<0, 0, 0, 0>> ELSE MinimalMsg(Msgs[CHOOSE i \in C : TRUE], b1)
+Inp == IF C = {} THEN Probe \o <<0, 0, 0, 0>> ELSE MinimalMsg(Msgs[CHOOSE i \in C : TRUE], b1, fill[1], fill[2])
 DispatchLaw ==
   LET r == DecodeEntry(entry, "", Inp) IN
   /\ Cardinality(C) <= 1
